@@ -131,7 +131,10 @@ def check_channel(case):
         return Fail(f'channel/construction-raises/{exc_sig(res)}', repr(res))
     cha, chb, ord_a, ord_b = res
     for tag, snd, rcv, order, data in (('A->B', cha, chb, ord_a, p), ('B->A', chb, cha, ord_b, q),
-                                       ('A->B second packet', cha, chb, ord_a, q), ('B->A second packet', chb, cha, ord_b, p)):
+                                       ('A->B second packet', cha, chb, ord_a, q), ('B->A second packet', chb, cha, ord_b, p),
+                                       # the same plaintext again on the same channel object (no cipher state carried over)
+                                       ('A->B same plaintext again', cha, chb, ord_a, p), ('A->B third', cha, chb, ord_a, p),
+                                       ('B->A same plaintext again', chb, cha, ord_b, q)):
         f = _direction(tag, snd, rcv, order, data)
         if f is not None:
             return f
